@@ -66,12 +66,20 @@ class Watch:
         self.taint = []          # one flag per open non-mutator window
         self.case = None
         self.mutator_calls = 0
+        self.self_mutating = set()
 
     def nonmut(self, name, orig):
         W = self
 
         def wrapper(*args, **kw):
             ctx = W.ctx
+            if name == '__getitem__' and args and hasattr(type(args[0]), '__missing__'):
+                # an index read IS a subscript: a host mapping whose own __missing__ inserts on read (defaultdict) changes itself,
+                # by the host's code, not the builtin's; such windows are not judged (the object is there to catch builtins
+                # that subscript where a non-inserting lookup is documented, e.g. get)
+                ctx.count('windows_not_judged(index read of a host mapping with __missing__)')
+                W.self_mutating.add(id(args[0]))
+                return orig(*args, **kw)
             before = [heap.fingerprint(a) for a in args]
             has_container = any(f[0] in ('list', 'tuple', 'dict') for f in before)
             W.taint.append(False)
@@ -170,6 +178,7 @@ def run_case(case, ctx):
     W = ctx.W
     W.case = case
     W.taint = []
+    W.self_mutating = set()
     names = host(with_big=(case[-2] if case[0] == 'call' else case[1]) % 5 == 0)
     before_all = {k: heap.fingerprint(v) for k, v in names.items()}
     m0 = W.mutator_calls
@@ -201,9 +210,11 @@ def run_case(case, ctx):
     ctx.count('cases_run')
     if W.mutator_calls == m0:
         ctx.count('end_to_end_checks')
-        after_all = {k: heap.fingerprint(v) for k, v in names.items() if k in before_all}
-        if after_all != before_all:
-            k = [k for k in before_all if after_all.get(k) != before_all[k]][0]
+        skip = {k for k, v in names.items() if id(v) in W.self_mutating}
+        after_all = {k: heap.fingerprint(v) for k, v in names.items() if k in before_all and k not in skip}
+        before_cmp = {k: v for k, v in before_all.items() if k not in skip}
+        if after_all != before_cmp:
+            k = [k for k in before_cmp if after_all.get(k) != before_cmp[k]][0]
             ctx.violation('an evaluation that called no mutator changed the host object %r' % k, case,
                           detail={'src': src, 'before': str(strip_ids(before_all[k]))[:300], 'after': str(strip_ids(after_all.get(k)))[:300]})
     if W.judged > j0:
